@@ -3,8 +3,12 @@ package main
 import (
 	"fmt"
 	"go/types"
+	"os"
 	"strings"
 )
+
+// debugHavoc (PVC_DEBUG=1) prints why memory was forgotten wholesale.
+var debugHavoc = os.Getenv("PVC_DEBUG") != ""
 
 // Value is a symbolic Go value.
 type Value interface{}
@@ -448,7 +452,7 @@ func (x *Exec) mem(s *State, name string, leafSort Sort) Term {
 	if t, ok := s.mem[name]; ok {
 		return t
 	}
-	t := x.ctx.Const(lazyMemName(name, s.memEpoch), outerSort(leafSort))
+	t := x.ctx.Const(x.lazyName(s, name), outerSort(leafSort))
 	s.mem[name] = t
 	x.memSorts[name] = leafSort
 	return t
@@ -673,11 +677,15 @@ func lazyMemName(name string, epoch int) string {
 
 // havocAllMem forgets every memory (unknown callee).
 func (x *Exec) havocAllMem(s *State, why string) {
+	if debugHavoc {
+		fmt.Fprintln(os.Stderr, "pvc: all memory forgotten:", why)
+	}
 	for name := range s.mem {
 		sort := x.memSorts[name]
 		s.mem[name] = x.ctx.Fresh("mem$"+name, outerSort(sort))
 	}
 	s.memEpoch = x.newEpoch()
+	s.privEpoch, s.fReach, s.fReachAll = s.memEpoch, nil, false
 	x.noteWriteAll(s, why)
 }
 
